@@ -624,18 +624,31 @@ theorem enterClass_step {proj : Project} {rank : List Nat} (wf : WFacts proj ran
     {mod ctx : Nat} {S : Site} {full : List Stmt} (hc : Ctx proj s mod ctx S full) {n : Name} {bs : List Path}
     {body : List Stmt} (hst : Stmt.classDef n bs body ∈ full) (hb : s.bad = false)
     (hpend : ∀ o, s.reg.objs[ctx]? = some o → dget o.contents n = none) :
-    StepOk proj ctx [n] s (enterClass ctx n bs s) := by
-  have hbs : bs = [] := wf.nobases hc.body hst
-  subst hbs
+    StepOk proj ctx [n] s (enterClass ctx n bs s) ∧ (addObj s .cls n ctx).bad = false := by
   obtain ⟨o, ho, _⟩ := hc.clsc
   have hf := def_fresh wf hI hc hst rfl ho (hpend o ho)
   have hb1 := addObj_clean (c := .cls) hb hc.pathc hf
-  have he : enterClass ctx n [] s =
-      { addObj s .cls n ctx with cinfo := (addObj s .cls n ctx).cinfo ++ [(s.reg.objs.length, ⟨ctx, [], [], []⟩)] } := by
+  -- the base expressions expand without a crash
+  have hexp : (bs.map (fun b => Names.expandName (envOf s) ctx b)).any Option.isNone = false := by
+    rw [Bool.eq_false_iff]
+    intro h
+    simp only [List.any_eq_true, List.mem_map] at h
+    obtain ⟨x, ⟨b, hbm, rfl⟩, hx⟩ := h
+    obtain ⟨p, hp⟩ := expandLoop_some wf hI (envOf s) rfl b ctx true (wf.basesNe hc.body hst b hbm)
+      (List.getElem?_eq_some_iff.1 ho).1
+    have : Names.expandName (envOf s) ctx b = some p := hp
+    rw [this] at hx; cases hx
+  obtain ⟨ci, he⟩ : ∃ ci : List (Nat × ClsInfo), enterClass ctx n bs s = { addObj s .cls n ctx with cinfo := ci } := by
     unfold enterClass
-    simp [markBad]
+    simp only [hexp, markBad_false]
+    exact ⟨_, rfl⟩
   rw [he]
-  exact ⟨hb1, addObj_frame proj hc.pathc hb1⟩
+  exact ⟨⟨hb1, addObj_frame proj hc.pathc hb1⟩, hb1⟩
+
+end Imports
+
+namespace Imports
+open Registry
 
 /-! ## a body -/
 
@@ -677,15 +690,17 @@ theorem Ctx.prot {proj : Project} {s : St} {mod ctx : Nat} {S : Site} {full : Li
   · rw [hc.ctxmod hS2, hc.ps]; simp
   · rw [hc'] at hcls; unfold modCls at hcls; split at hcls <;> cases hcls
 
-theorem enterClass_new {s : St} {ctx : Nat} {n : Name} {pp : Path} (hp : path s.reg ctx = some pp)
-    (hb : (addObj s .cls n ctx).bad = false) :
-    (enterClass ctx n [] s).reg.objs[s.reg.objs.length]? = some (⟨n, some ctx, .cls, [], []⟩ : Obj) := by
-  have he : enterClass ctx n [] s =
-      { addObj s .cls n ctx with cinfo := (addObj s .cls n ctx).cinfo ++ [(s.reg.objs.length, ⟨ctx, [], [], []⟩)] } := by
-    unfold enterClass
-    simp [markBad]
+theorem enterClass_new {s : St} {ctx : Nat} {n : Name} {bs : List Path} {pp : Path} (hp : path s.reg ctx = some pp)
+    (hb : (enterClass ctx n bs s).bad = false) :
+    (enterClass ctx n bs s).reg.objs[s.reg.objs.length]? = some (⟨n, some ctx, .cls, [], []⟩ : Obj) := by
+  have hb1 := enterClass_bad hb
+  obtain ⟨ci, he⟩ : ∃ ci : List (Nat × ClsInfo), enterClass ctx n bs s = { addObj s .cls n ctx with cinfo := ci } := by
+    unfold enterClass at hb ⊢
+    simp only at hb ⊢
+    obtain ⟨_, hmb⟩ := markBad_bad hb
+    exact ⟨_, hmb⟩
   rw [he]
-  obtain ⟨he2, _⟩ := addObj_spec hp hb
+  obtain ⟨he2, _⟩ := addObj_spec hp hb1
   rw [he2]
   exact objsAfterAdd_get_new (path_lt hp)
 
@@ -713,13 +728,11 @@ theorem visitStmt_step {proj : Project} {rank : List Nat} (wf : WFacts proj rank
     exact visitImportStar_step wf hpm hg hI hc hst hb hk
   | .classDef n bs body, ctx, s, S, full, hI, hc, hst, hb, hk, hp => by
     simp only [visitStmt, Stmt.defName, Option.toList]
-    have hbs : bs = [] := wf.nobases hc.body hst
-    subst hbs
-    obtain ⟨hb1, hf1⟩ := enterClass_step wf hI hc hst hb (fun o ho => hp o ho n rfl)
+    obtain ⟨⟨hb1, hf1⟩, _⟩ := enterClass_step wf hI hc hst hb (fun o ho => hp o ho n rfl)
     obtain ⟨hI1, he1, hc1, _⟩ := enterClass_ok wf hI hc hst hb1
-    have hk1 : cnt (enterClass ctx n [] s) ≤ k := Nat.le_trans (cnt_ext hI hI1 he1) hk
-    have hnew := enterClass_new hc.pathc (enterClass_bad hb1)
-    have hpend : Pending (enterClass ctx n [] s) s.reg.objs.length body := by
+    have hk1 : cnt (enterClass ctx n bs s) ≤ k := Nat.le_trans (cnt_ext hI hI1 he1) hk
+    have hnew := enterClass_new hc.pathc hb1
+    have hpend : Pending (enterClass ctx n bs s) s.reg.objs.length body := by
       intro o ho st' _ n' _
       rw [hnew] at ho; injection ho with ho; subst ho; rfl
     obtain ⟨hb2, hf2⟩ := visitStmts_step wf hpm hg body s.reg.objs.length _ _ body [] hI1 hc1 (by simp) hb1 hk1 hpend
@@ -814,7 +827,6 @@ theorem processModule_start {proj : Project} {s : St} (hI : PdInv proj s) {m : N
         by_cases htm : S.1 = m
         · simp [htm]
         · simp only [htm, if_false]; exact hI.started i S (hreg2 ▸ hp) hS hne'
-      cinfo := by rw [← hs2]; exact hI.cinfo
       complete := by
         intro t md ht hp
         rw [hps2] at hp
